@@ -69,6 +69,11 @@ func comps(extra map[string]string) map[string]string {
 }
 
 var props = map[string]propCfg{
+	"C03": {World: "stream", QuickRuns: 4000, ThoroughRuns: 600000,
+		Rule: "one run = one simulated connection: 1..12 reference-encoded frames for randomly chosen remainder-returning entry points (37 of them), delivered as a byte stream cut at scripted offsets (biased by the reference field map to length/count fields and extent-1/extent/extent+1), at a fixed MSS down to 1 byte, coalesced, or reset at a byte offset; or as datagrams followed by 0..64 bytes of padding of six kinds, some truncated. The receiver frames the stream with the library's own remainders only. Non-trivial = at least one cut, reset, padding or truncation fired; distinct = distinct run fingerprints (SHA-256 over every parse attempt's (frame, buffered bytes, success, remainder length)).",
+		Assumptions: []string{"only frames the parser accepts when given exactly the reference encoding are sent (C03 quantifies over accepted inputs); rejected reference frames are counted as probes", "success per entry point: err == nil; ReadInteger: result of the requested length; ReadMapping/NewMapping: no error other than the documented 'data exists beyond length of mapping' warning", "Certificate.RawBytes/ExcessBytes and KeyCertificate.Data are documented to expose bytes beyond the declared length and are left out of the 'same value' comparison", "the structure extent is the reference encoder's length"},
+		Components:  comps(map[string]string{"transport": "simulated: in-process byte stream / datagram queue with segmentation, coalescing, reset, padding, truncation (stub for NTCP2/SSU2, which are not in this repository)", "receiver": "harness code: append to buffer, call the expected Read* function, keep the remainder", "clock": "synctest bubble (fixed instant) so that time-dependent accessors in the observation vector are deterministic"}),
+		TimeoutQuick: 5 * time.Minute, TimeoutThoro: 40 * time.Minute},
 	"C15": {World: "clock", QuickRuns: 6000, ThoroughRuns: 1500000,
 		Rule: "one run = one seeded script: a lease table of 1..24 entries (Lease, Lease2, OfflineSignature, LeaseSet2, EncryptedLeaseSet, MetaLeaseSet + entries, LeaseSets of 1..16 leases, Date conversions; parsed from reference bytes and built by constructors) evaluated at 2..12 boots, each a fresh synctest bubble slept to a scripted absolute instant (relative to an entry's exact expiry, at the 2038/2106 edges, or uniform in 2000..2262; consecutive boots may go backwards). A run is non-trivial if at least one boot happened; distinct = distinct run fingerprints (SHA-256 over every (entry, boot) observation).",
 		Assumptions: []string{"testing/synctest's fake clock is the only clock the library reads (inventory in DESIGN.md §1)", "the bubble clock covers 2000-01-01 .. 2262-04-01 only: expiries before 2000-01-02 are seen from the expired side only, millisecond dates past 2262 from the not-expired side only", "inside the ±24 h band around an expiry IsExpired is not judged (the property promises nothing there)"},
